@@ -94,7 +94,7 @@ func runAuditionPeriods(modality string, traces [][]bool, withT bool, lastClosed
 		}
 	}
 	evs = append(evs, cmd.VerifEvent{Kind: "final", Ts: ts + 1.2871})
-	res := cmd.VerifAudition(cfg, evs, false, false)
+	res := cmd.VerifAuditLoop(cfg, evs, false)
 	var out []periodCase
 	for k, tr := range traces {
 		pc := periodCase{Name: modality, Trace: tr, Panic: res.Panic}
